@@ -24,6 +24,12 @@ Bounded exhaustive enumeration of link graphs on the real code, two layers (four
              enumeration); the same parser must afterwards instantiate the same configuration (thorough: and a
              freshly parsed one) exactly as a fresh parser would (full constructor-log oracle).
 
+Two alphabets cross the parser families: the NAMES of the components (unrelated names, and names of which one is a
+proper string prefix of another: n / n2 / n2x, n / n_e / n_e_m, g.n / g.n2 under a dotted parent; roo / root / root2
+around the hierarchy; h / h2 for the argument and the outside component) and the VALUE a link source carries (the
+object, an attribute holding an object, and attributes holding None, 0, "", False, [], an object with truth value
+False - fed into parameters whose default is not None, so that "not applied" and "delivered None" differ).
+
 For hier / within the reference is the dependency graph "link edges + nesting edges" (an object is built before the
 object whose constructor receives it): a link that makes this graph cyclic must be refused with ValueError when it
 is added, every other link must be accepted, and instantiation is judged by the constructor log (each class exactly
@@ -39,8 +45,8 @@ META = {
     "level": "model_checking",
     "engine": "bounded exhaustive link-graph enumeration on the real DirectedGraph / ArgumentParser (mc/checks/c16.py)",
     "technique": "exhaustive enumeration of all small digraphs (DirectedGraph vs. independent Kahn check) and of all "
-    "small link graphs x component kinds x declaration orders x link orders through real parsers, judged by a "
-    "constructor log and a reference dependency graph",
+    "small link graphs x component kinds x declaration orders x link orders x component-name relations x source "
+    "value kinds through real parsers, judged by a constructor log and a reference dependency graph",
     "level_text": "Every digraph on up to 5 labelled nodes is given to the real DirectedGraph in several insertion "
     "orders and its answer (order or ValueError) is validated by an independent acyclicity/order check; every DAG "
     "on up to 3 (quick) / 4 (thorough) components is realised as a real parser with instantiation links in every "
@@ -1060,11 +1066,14 @@ def e2e_worker(cases):
     out["expect_refuse"] = out["expect_instantiate"] = 0
     out["orders"], out["shapes"] = set(), set()
     out["aborted"] = out["aborted_late"] = out["fault_fired"] = out["fault_histories"] = 0
+    out["prefix_named"] = out["falsy_valued"] = 0
     F = _fx()
     faulty = [c for c in cases if "fault" in c]
     results = [(c, run_e2e(c)) for c in cases if "fault" not in c] + (list(zip(faulty, run_histories(faulty))) if faulty else [])
     for case, (devs, stats) in results:
         out["fault_histories"] += "fault" in case
+        out["prefix_named"] += "names" in case
+        out["falsy_valued"] += any(how in FALSY_HOWS for l in case["links"] for _, how in l["s"])
         for k in ("aborted", "aborted_late", "fault_fired"):
             out[k] += stats.get(k, 0)
         out["shapes"].update(stats.get("shapes", ()))
@@ -1111,7 +1120,7 @@ def explore(ctx):
 
     # ---- layer 2
     keys = ("cases", "calls", "rejected", "instantiated", "nontrivial", "flagged", "expect_refuse", "expect_instantiate")
-    keys += ("fault_histories", "aborted", "aborted_late", "fault_fired")
+    keys += ("fault_histories", "aborted", "aborted_late", "fault_fired", "prefix_named", "falsy_valued")
     e = dict.fromkeys(keys, 0)
     fam = {}
     for name, gen in FAMILIES:
@@ -1162,6 +1171,11 @@ def explore(ctx):
             "dag_components": 3 if quick else 4,
             "hier_links": "<= 3 into the levels, <= 2 with a level as source" if quick else "<= 6 into the levels, <= 3 with a level as source",
             "within_links": 3 if quick else 4,
+            "component_names": "plain c0..c3 everywhere; prefix-related names (n/n2/n2x, n/n_e/n_e_m, g.n/g.n2/g.n2x): "
+            "dag k <= 2 all kinds, k = 3 the rows of dag_plan; hier roo/root/root2; within h/h2 both ways round",
+            "source_values": "whole object, attribute holding an object, None, 0, '', False, [], a falsy object; the "
+            "None / falsy ones into parameters with a non-None default: dag k <= 2 all kinds x {alone, compute_fn, "
+            "first of a multi-source compute_fn}, k = 3 / hier / within the None (and 0) rows of the plans",
             "fault_histories": "every constructor / compute_fn call of the first instantiation as fault point; dag: all "
             "DAGs on 2 components x all kinds x all shapes, on 3 components for the kind/shape rows of fault_plan"
             + ("" if quick else ", on 4 components GGGG") + "; hier: downward link sets of <= "
@@ -1170,7 +1184,7 @@ def explore(ctx):
         graph=g,
         families=fam,
     )
-    ctx.assume("component names c0..c3 / sa, sb, root, h and PYTHONHASHSEED=0 fix the iteration order of the targets set")
+    ctx.assume("the fixed component names (c0..c3, n/n2/n2x, n/n_e/n_e_m, g.n/g.n2/g.n2x; sa, sb, roo, root, root2; h, h2, sa) and PYTHONHASHSEED=0 fix the iteration order of the targets set")
     ctx.assume("reference dependency graph = link edges + nesting edges (an object is built before the object that receives it)")
     # guards on the enumeration itself (independent of what the implementation did)
     ctx.require(g["acyclic"] > 500 and g["cyclic"] > 500, "layer graph saw > 500 acyclic and > 500 cyclic digraphs")
@@ -1180,6 +1194,14 @@ def explore(ctx):
     ctx.require(fam["hier"]["expect_instantiate"] - fam["hier"]["flagged"] > 300, "hier family: > 300 acyclic link sets of un-flagged shape")
     ctx.require(fam["within"]["expect_instantiate"] > 100 and fam["within"]["expect_refuse"] > 100, "within family: > 100 acyclic and > 100 cyclic link sets")
     ctx.require(fam["faults"]["fault_histories"] > 1500 and fam["faults"]["fault_histories"] == fam["faults"]["cases"], "faults family: > 1500 histories with an aborted instantiation")
+    ctx.require(
+        fam["dag"]["prefix_named"] > 1000 and fam["hier"]["prefix_named"] > 100 and fam["within"]["prefix_named"] > 50,
+        "prefix-related component names: > 1000 dag, > 100 hier, > 50 within cases",
+    )
+    ctx.require(
+        fam["dag"]["falsy_valued"] > 800 and fam["hier"]["falsy_valued"] > 50 and fam["within"]["falsy_valued"] > 50,
+        "None / falsy source attribute values: > 800 dag, > 50 hier, > 50 within cases",
+    )
     # guards on what the implementation was seen doing: they protect a PASS verdict only.  When the run reports a
     # violation anyway (a deviation that is not a known finding) they are moot and must not turn it into exit 2.
     from mc.core import load_known
@@ -1192,6 +1214,11 @@ def explore(ctx):
         ctx.require(
             set(fam["dag"]["link_shapes_judged"]) >= {"whole", "attr", "whole+fn", "attr+fn", "multi+fn"},
             "every link shape (whole / attr / +fn / multi) was judged by the constructor log",
+        )
+        ctx.require(
+            set(fam["dag"]["link_shapes_judged"]) >= {"attr-none", "attr-none+fn", "multi-none+fn", "attr-falsy", "attr-falsy+fn", "multi-falsy+fn"}
+            and {"attr-none"} <= set(fam["hier"]["link_shapes_judged"]) & set(fam["within"]["link_shapes_judged"]),
+            "links carrying None / a falsy attribute value (alone, through compute_fn, multi-source) were judged delivered",
         )
         ctx.require(fam["hier"]["instantiated"] - fam["hier"]["flagged"] > 300, "hier family instantiated > 300 parsers of un-flagged shape")
         ctx.require(fam["within"]["instantiated"] > 100, "within family instantiated > 100 parsers")
